@@ -11,12 +11,13 @@ Section ResourceLevel.
   Variable parse : string -> option re.
   Variable enc : node -> string.
   Variable nonstr : string -> bool.
+  Variable decodes : tag -> string -> bool.
   Variable lsel : string -> list (string * string) -> option bool.
   Variable fuel : nat.
 
-  Notation apply_node := (apply_target_to_node parse enc nonstr lsel fuel).
-  Notation apply_nodes := (apply_target_to_nodes parse enc nonstr lsel fuel).
-  Notation apply_repl := (apply_replacement parse enc nonstr lsel fuel).
+  Notation apply_node := (apply_target_to_node parse enc nonstr decodes lsel fuel).
+  Notation apply_nodes := (apply_target_to_nodes parse enc nonstr decodes lsel fuel).
+  Notation apply_repl := (apply_replacement parse enc nonstr decodes lsel fuel).
 
   (* the target selector wants this resource: label/annotation selectors accept it, one of its ids
      (current or previous) is selected, and no id is rejected *)
@@ -140,19 +141,19 @@ Proof.
       rewrite (nth_error_replace_nth_same _ _ _ _ E). auto.
 Qed.
 
-Lemma write_hits_frame opts : forall hits live value n n' st,
-  write_hits opts live value hits n = Ok (n', st) ->
+Lemma write_hits_frame decodes opts : forall hits live value n n' st,
+  write_hits decodes opts live value hits n = Ok (n', st) ->
   forall a, (forall h, In (HAt h) hits -> comparable a h = false) -> get_at a n' = get_at a n.
 Proof.
   induction hits as [|[h|x] t IH]; intros live value n n' st H a C; cbn in H.
   - inv H; auto.
-  - destruct (update_at (set_field_value opts value) h n) as [n1| | |] eqn:U; cbn in H; try discriminate.
+  - destruct (update_at (set_field_value decodes opts value) h n) as [n1| | |] eqn:U; cbn in H; try discriminate.
     assert (E1 : get_at a n1 = get_at a n) by (eapply update_at_frame; eauto; apply C; left; auto).
     destruct live as [sa|].
     + destruct (refresh sa h value n1) as [v' still].
       rewrite (IH _ _ _ _ _ H a); auto. intros; apply C; right; auto.
     + rewrite (IH _ _ _ _ _ H a); auto. intros; apply C; right; auto.
-  - destruct (set_field_value opts value x); cbn in H; try discriminate.
+  - destruct (set_field_value decodes opts value x); cbn in H; try discriminate.
     eapply IH; eauto. intros; apply C; right; auto.
 Qed.
 
@@ -160,6 +161,7 @@ Section FieldLevel.
   Variable parse : string -> option re.
   Variable enc : node -> string.
   Variable nonstr : string -> bool.
+  Variable decodes : tag -> string -> bool.
   Variable fuel : nat.
 
   (* one field path, options.create not set: the matcher does not modify the target, at least one
@@ -167,7 +169,7 @@ Section FieldLevel.
      addresses the matcher returned — wherever the value lives *)
   Theorem copy_value_exact opts live value fp n n' st :
     create_kind opts value = None ->
-    copy_value_to_target parse enc nonstr fuel opts live value [fp] n = Ok (n', st) ->
+    copy_value_to_target parse enc nonstr decodes fuel opts live value [fp] n = Ok (n', st) ->
     exists hits,
       pm parse enc nonstr None fuel (smarter_path_splitter "."%char fp) n = Ok (n, hits) /\
       hits <> [] /\
@@ -178,7 +180,7 @@ Section FieldLevel.
       cbn -[write_hits pm] in H; try discriminate.
     pose proof (pm_nocreate_pure _ _ _ _ _ _ _ _ P); subst n1.
     destruct hits as [|h0 ht]; [discriminate|].
-    destruct (write_hits opts live (reread live value n) (h0 :: ht) n) as [[n2 st2]| | |] eqn:W;
+    destruct (write_hits decodes opts live (reread live value n) (h0 :: ht) n) as [[n2 st2]| | |] eqn:W;
       cbn -[write_hits pm] in H; inv H.
     exists (h0 :: ht). split; auto. split; [discriminate|].
     intros a C. eapply write_hits_frame; eauto.
@@ -188,13 +190,13 @@ Section FieldLevel.
      (for a private copy of the value, [reread None value n] is the value itself) *)
   Theorem copy_value_written opts live value fp n n' st h x :
     create_kind opts value = None ->
-    copy_value_to_target parse enc nonstr fuel opts live value [fp] n = Ok (n', st) ->
+    copy_value_to_target parse enc nonstr decodes fuel opts live value [fp] n = Ok (n', st) ->
     pm parse enc nonstr None fuel (smarter_path_splitter "."%char fp) n = Ok (n, [HAt h]) ->
     get_at h n = Some x ->
-    exists x', set_field_value opts (reread live value n) x = Ok x' /\ get_at h n' = Some x'.
+    exists x', set_field_value decodes opts (reread live value n) x = Ok x' /\ get_at h n' = Some x'.
   Proof.
     intros Ck H P G. cbn -[refresh] in H. rewrite Ck, P in H. cbn -[refresh] in H.
-    destruct (update_at (set_field_value opts (reread live value n)) h n) as [n1| | |] eqn:U;
+    destruct (update_at (set_field_value decodes opts (reread live value n)) h n) as [n1| | |] eqn:U;
       cbn -[refresh] in H; try discriminate.
     assert (n' = n1).
     { destruct live as [sa|]; [destruct (refresh sa h (reread (Some sa) value n) n1)|]; cbn in H; inv H; auto. }
@@ -202,14 +204,52 @@ Section FieldLevel.
   Qed.
 End FieldLevel.
 
-(* setFieldValue without a delimiter: a scalar field receives the source TEXT verbatim and keeps its
-   own tag and style; any other field is overwritten by the source node *)
-Lemma set_field_value_verbatim value t s old :
-  set_field_value None value (Scalar t s old) = Ok (Scalar t s (node_value value)).
+(* the repaired tag rule: the written text keeps the target's tag when go-yaml can decode it under that
+   tag, and makes the node a string otherwise *)
+Lemma gen_replacement_retags : gen_replacement_retags_undecodable = true.
 Proof. reflexivity. Qed.
 
-Lemma set_field_value_replace value target :
-  is_scalar target = false -> set_field_value None value target = Ok value.
+Lemma retag_spec decodes t x : retag decodes t x = if decodes t x then t else TStr.
+Proof. unfold retag. rewrite gen_replacement_retags. destruct (decodes t x); reflexivity. Qed.
+
+(* setFieldValue without a delimiter: a scalar field receives the source TEXT verbatim and keeps its
+   style, and its tag whenever the text can be decoded under it (otherwise it becomes a string);
+   any other field is overwritten by the source node *)
+Lemma set_field_value_verbatim decodes value t s old :
+  set_field_value decodes None value (Scalar t s old) =
+  Ok (Scalar (if decodes t (node_value value) then t else TStr) s (node_value value)).
+Proof. cbn. rewrite retag_spec. reflexivity. Qed.
+
+(* with a delimiter: the spliced text, same tag rule *)
+Lemma set_field_value_spliced decodes o value t s old :
+  fo_delimiter o <> "" ->
+  set_field_value decodes (Some o) value (Scalar t s old) =
+  Ok (Scalar (if decodes t (splice o old (get_value value)) then t else TStr) s (splice o old (get_value value))).
+Proof.
+  intros H. unfold set_field_value. apply String.eqb_neq in H. rewrite H. cbn. rewrite retag_spec. reflexivity.
+Qed.
+
+(* the written node can always be decoded: either under the kept tag or as a string *)
+Lemma set_field_value_decodable decodes opts value t s old x' :
+  (forall x, decodes TStr x = true) ->
+  set_field_value decodes opts value (Scalar t s old) = Ok x' ->
+  exists t' text, x' = Scalar t' s text /\ decodes t' text = true.
+Proof.
+  intros Hs H. unfold set_field_value in H.
+  destruct (match opts with Some o => if (fo_delimiter o =? "")%string then None else Some o | None => None end);
+    inversion H; subst; clear H; rewrite retag_spec;
+    match goal with |- context [if decodes ?t ?x then _ else _] => destruct (decodes t x) eqn:D end; eauto.
+Qed.
+
+Lemma replacement_kept_tag_regression :
+  let dec := fun (t : tag) (x : string) => match t with TNull | TInt => String.eqb x "5" | _ => true end in
+  set_field_value dec None (Scalar TStr SPlain "x") (Scalar TNull SPlain "null") = Ok (Scalar TStr SPlain "x") /\
+  set_field_value dec None (Scalar TStr SPlain "x") (Scalar TInt SPlain "3") = Ok (Scalar TStr SPlain "x") /\
+  set_field_value dec None (Scalar TStr SPlain "5") (Scalar TInt SPlain "3") = Ok (Scalar TInt SPlain "5").
+Proof. repeat split; vm_compute; reflexivity. Qed.
+
+Lemma set_field_value_replace decodes value target :
+  is_scalar target = false -> set_field_value decodes None value target = Ok value.
 Proof. destruct target; cbn; intros; try discriminate; reflexivity. Qed.
 
 (* getRefinedValue without options returns the source node itself *)
@@ -363,7 +403,7 @@ Example copy_value_example :
   let pod := Map [("spec", Map [("containers", Seq [Map [("name", Scalar TStr SPlain "x"); ("image", Scalar TStr SPlain "i:1")];
                                                    Map [("name", Scalar TStr SPlain "web"); ("image", Scalar TStr SPlain "j:2")]])])] in
   create_kind None (Scalar TStr SPlain "new") = None /\
-  copy_value_to_target (parse_of [("x", Some (lit "x"))]) node_value (fun _ => false) 1 None None (Scalar TStr SPlain "new")
+  copy_value_to_target (parse_of [("x", Some (lit "x"))]) node_value (fun _ => false) (fun _ _ => true) 1 None None (Scalar TStr SPlain "new")
                        ["spec.containers.[name=x].image"] pod
   = Ok (Map [("spec", Map [("containers", Seq [Map [("name", Scalar TStr SPlain "x"); ("image", Scalar TStr SPlain "new")];
                                                 Map [("name", Scalar TStr SPlain "web"); ("image", Scalar TStr SPlain "j:2")]])])],
@@ -458,7 +498,7 @@ Definition alias_repl : replacement :=
 (* the source is x; the target list [a; b] rewrites the source field first: b still receives x (it used to receive x/x) *)
 Lemma replacement_source_copied_regression :
   splice (mkFO "/" 1%Z false) "q" "x" = "q/x" /\
-  replacement_filter (parse_of []) node_value (fun _ => false) simple_lsel 2 [alias_repl] [alias_doc] =
+  replacement_filter (parse_of []) node_value (fun _ => false) (fun _ _ => true) simple_lsel 2 [alias_repl] [alias_doc] =
   Ok [Map [("kind", Scalar TStr SPlain "ConfigMap");
            ("metadata", Map [("name", Scalar TStr SPlain "cm")]);
            ("data", Map [("a", Scalar TStr SPlain "x/x"); ("b", Scalar TStr SPlain "q/x")])]].
